@@ -135,6 +135,9 @@ def build_world(spec):
             chmods.append((hp, n.get("m", 0o644)))
         elif t == "l":
             os.symlink(n["to"], hp)
+        elif t == "p":     # a fifo (a special file: nothing to copy, cannot be opened casually)
+            os.mkfifo(hp, 0o644)
+            chmods.append((hp, n.get("m", 0o644)))
         else:
             raise HarnessError("bad node type %r" % (t,))
         made.append((hp, n.get("mt", T0 + i)))
@@ -187,6 +190,9 @@ def _build_long(hp, n, mt):
             os.chmod(name, n.get("m", 0o644), dir_fd=dfd)
         elif t == "l":
             os.symlink(n["to"], name, dir_fd=dfd)
+        elif t == "p":
+            os.mkfifo(name, 0o644, dir_fd=dfd)
+            os.chmod(name, n.get("m", 0o644), dir_fd=dfd)
         else:
             raise HarnessError("bad node type %r" % (t,))
         os.utime(name, (mt, mt), dir_fd=dfd, follow_symlinks=False)
@@ -220,8 +226,8 @@ def _node(dfd, name):
             os.close(fd)
         return Node("f", stat.S_IMODE(m), st.st_size, h.hexdigest()[:16], None,
                     st.st_mtime_ns, st.st_dev, st.st_ino, st.st_nlink)
-    return Node("o", stat.S_IMODE(m), 0, None, None, st.st_mtime_ns,
-                st.st_dev, st.st_ino, st.st_nlink)
+    return Node("p" if stat.S_ISFIFO(m) else "s" if stat.S_ISSOCK(m) else "o", stat.S_IMODE(m), 0,
+                None, None, st.st_mtime_ns, st.st_dev, st.st_ino, st.st_nlink)
 
 
 def snapshot(top="/"):
